@@ -3,6 +3,7 @@ package rules
 import (
 	"fmt"
 	"go/ast"
+	"go/parser"
 	"go/token"
 	"go/types"
 	"sort"
@@ -1141,4 +1142,288 @@ func E7GlobalEscape(c *core.Ctx, r *core.Report) {
 	r.OK("E7.global-escape", "module|no address of a package-level variable escapes into objects or results", "", fmt.Sprintf("%d functions examined", len(fns)))
 	r.Count("E7.functions-examined-for-global-escape", len(fns))
 	r.Floor("E7.functions-examined-for-global-escape", 500)
+}
+
+// memoStores examines the stores into package-level keyed caches made by fd — `G.Store(k, v)` /
+// `G.LoadOrStore(k, v)` on a package-level sync.Map, `G[k] = v` on a package-level map — and reports,
+// for each, the inputs the stored value depends on (field paths rooted at parameters, range
+// variables and receivers, followed through the assignments and the conditions they sit under)
+// that the key does not determine. A key component K determines K and everything reached through
+// K (an object is taken to be immutable while it is used as a key).
+func memoStores(info *types.Info, pkg *types.Package, fd *ast.FuncDecl, visit func(pos token.Pos, global string, missing []string)) {
+	isGlobal := func(e ast.Expr) (string, bool) {
+		id, ok := core.Unparen(e).(*ast.Ident)
+		if !ok {
+			return "", false
+		}
+		v, ok := info.Uses[id].(*types.Var)
+		if !ok || v.Parent() != pkg.Scope() {
+			return "", false
+		}
+		return v.Name(), true
+	}
+	// assignments per local, with the conditions they are nested under
+	type def struct {
+		rhs   ast.Expr
+		conds []ast.Expr
+	}
+	defs := map[types.Object][]def{}
+	var conds []ast.Expr
+	var collect func(n ast.Node)
+	collect = func(n ast.Node) {
+		switch x := n.(type) {
+		case *ast.IfStmt:
+			if x.Init != nil {
+				collect(x.Init)
+			}
+			conds = append(conds, x.Cond)
+			collect(x.Body)
+			if x.Else != nil {
+				collect(x.Else)
+			}
+			conds = conds[:len(conds)-1]
+			return
+		case *ast.AssignStmt:
+			for i, l := range x.Lhs {
+				id, ok := l.(*ast.Ident)
+				if !ok {
+					continue
+				}
+				o := info.Defs[id]
+				if o == nil {
+					o = info.Uses[id]
+				}
+				if o == nil {
+					continue
+				}
+				var rhs ast.Expr
+				if len(x.Lhs) == len(x.Rhs) {
+					rhs = x.Rhs[i]
+				} else if len(x.Rhs) == 1 {
+					rhs = x.Rhs[0]
+				}
+				if x.Tok != token.ASSIGN && x.Tok != token.DEFINE && len(x.Rhs) == 1 {
+					rhs = x.Rhs[0] // v *= e: depends on e (and on itself)
+				}
+				defs[o] = append(defs[o], def{rhs, append([]ast.Expr{}, conds...)})
+			}
+			return
+		case *ast.BlockStmt:
+			for _, s := range x.List {
+				collect(s)
+			}
+			return
+		case *ast.ForStmt:
+			collect(x.Body)
+			return
+		case *ast.RangeStmt:
+			collect(x.Body)
+			return
+		case *ast.SwitchStmt:
+			collect(x.Body)
+			return
+		case *ast.CaseClause:
+			for _, s := range x.Body {
+				collect(s)
+			}
+			return
+		}
+	}
+	collect(fd.Body)
+	var leaves func(e ast.Expr, out map[string]bool, seen map[types.Object]bool)
+	leaves = func(e ast.Expr, out map[string]bool, seen map[types.Object]bool) {
+		if e == nil {
+			return
+		}
+		ast.Inspect(e, func(m ast.Node) bool {
+			switch x := m.(type) {
+			case *ast.SelectorExpr:
+				// a field path rooted at an identifier that is not computed locally
+				root := x
+				var base ast.Expr = x
+				for {
+					se, ok := core.Unparen(base).(*ast.SelectorExpr)
+					if !ok {
+						break
+					}
+					root = se
+					base = se.X
+				}
+				_ = root
+				if id, ok := core.Unparen(base).(*ast.Ident); ok {
+					if v, ok := info.Uses[id].(*types.Var); ok && v.Parent() != pkg.Scope() {
+						if sel, isSel := info.Selections[x]; isSel && sel.Kind() == types.FieldVal {
+							// a field path of an object (a parameter, a range variable, or a local that holds
+							// one, e.g. `glyph := glyphs[i]`): the path names the input
+							out[types.ExprString(x)] = true
+							return false
+						}
+					}
+				}
+			case *ast.Ident:
+				o := info.Uses[x]
+				v, ok := o.(*types.Var)
+				if !ok || v.Parent() == pkg.Scope() || v.IsField() {
+					return true
+				}
+				if ds := defs[o]; len(ds) > 0 {
+					if !seen[o] {
+						seen[o] = true
+						for _, d := range ds {
+							leaves(d.rhs, out, seen)
+							for _, cnd := range d.conds {
+								leaves(cnd, out, seen)
+							}
+						}
+					}
+				} else {
+					out[x.Name] = true // parameter, receiver, range variable used as a whole
+				}
+			}
+			return true
+		})
+	}
+	check := func(pos token.Pos, g string, key, val ast.Expr, encl []ast.Expr) {
+		kl, vl := map[string]bool{}, map[string]bool{}
+		leaves(key, kl, map[types.Object]bool{})
+		leaves(val, vl, map[types.Object]bool{})
+		var missing []string
+		for l := range vl {
+			covered := false
+			for k := range kl {
+				if l == k || strings.HasPrefix(l, k+".") {
+					covered = true
+				}
+			}
+			if !covered {
+				missing = append(missing, l)
+			}
+		}
+		sort.Strings(missing)
+		visit(pos, g, missing)
+	}
+	ast.Inspect(fd.Body, func(m ast.Node) bool {
+		switch x := m.(type) {
+		case *ast.CallExpr:
+			se, ok := x.Fun.(*ast.SelectorExpr)
+			if !ok || len(x.Args) != 2 {
+				return true
+			}
+			if se.Sel.Name != "Store" && se.Sel.Name != "LoadOrStore" && se.Sel.Name != "Swap" {
+				return true
+			}
+			g, ok := isGlobal(se.X)
+			if !ok {
+				return true
+			}
+			if t := info.TypeOf(se.X); t == nil || !strings.HasSuffix(t.String(), "sync.Map") {
+				return true
+			}
+			check(x.Pos(), g, x.Args[0], x.Args[1], nil)
+		case *ast.AssignStmt:
+			for i, l := range x.Lhs {
+				ie, ok := core.Unparen(l).(*ast.IndexExpr)
+				if !ok || i >= len(x.Rhs) {
+					continue
+				}
+				g, ok := isGlobal(ie.X)
+				if !ok {
+					continue
+				}
+				if _, isMap := info.TypeOf(ie.X).Underlying().(*types.Map); !isMap {
+					continue
+				}
+				check(x.Pos(), g, ie.Index, x.Rhs[i], nil)
+			}
+		}
+		return true
+	})
+}
+
+// E7MemoKey: a package-level cache may only remember values that its key determines.
+func E7MemoKey(c *core.Ctx, r *core.Report) {
+	r.Rule("E7.memo-key", "\"every call returns exactly the result it returns when run alone\": a package-level keyed cache (sync.Map, or a map written at run time) survives the call that fills it and is shared by every goroutine, so a value stored in it may depend only on inputs the key determines. For every store, the inputs of the value — field paths rooted at parameters, receivers and range variables, followed backwards through the function's assignments and the conditions they sit under — are each a key component or reached through one. A hyphen width cached per font but computed from the font *and the size* makes a layout depend on which size was laid out first with that font. Module-wide; built-in example on every run (no such cache exists today)")
+	// self-test
+	{
+		src := `package sync
+type Map struct{}
+func (m *Map) Load(k any) (any, bool) { return nil, false }
+func (m *Map) Store(k, v any) {}
+type F struct{ units int }
+type G struct { f *F; size float64; vertical bool }
+var cache Map
+var table = map[*F]float64{}
+type key struct { f *F; v bool }
+func coarse(gs []G, i int) float64 {
+	g := gs[i]
+	k := key{g.f, g.vertical}
+	if w, ok := cache.Load(k); ok { return w.(float64) }
+	w := float64(g.f.units)
+	if g.vertical { w = 2 }
+	w *= g.size
+	cache.Store(k, w)
+	return w
+}
+func exact(g G) float64 {
+	k := key{g.f, g.vertical}
+	w := float64(g.f.units)
+	if g.vertical { w = 2 }
+	cache.Store(k, w)
+	return w * g.size
+}
+func plainMap(g G) { table[g.f] = g.size }
+`
+		fset := token.NewFileSet()
+		f, err := parser.ParseFile(fset, "selftest.go", src, 0)
+		if err != nil {
+			panic(core.Infra("memo-key self-test does not parse: " + err.Error()))
+		}
+		info := &types.Info{Types: map[ast.Expr]types.TypeAndValue{}, Uses: map[*ast.Ident]types.Object{}, Defs: map[*ast.Ident]types.Object{}, Selections: map[*ast.SelectorExpr]*types.Selection{}}
+		pkg, err := (&types.Config{}).Check("sync", fset, []*ast.File{f}, info)
+		if err != nil {
+			panic(core.Infra("memo-key self-test does not type-check: " + err.Error()))
+		}
+		got := ""
+		for _, d := range f.Decls {
+			fd, ok := d.(*ast.FuncDecl)
+			if !ok {
+				continue
+			}
+			memoStores(info, pkg, fd, func(_ token.Pos, g string, missing []string) {
+				got += fd.Name.Name + ":" + g + "[" + strings.Join(missing, ",") + "] "
+			})
+		}
+		if got != "coarse:cache[g.size] exact:cache[] plainMap:table[g.size] " {
+			panic(core.Infra("memo-key self-test: recogniser answers `" + got + "`"))
+		}
+		r.Count("E7.memo-key-selftest", 3)
+	}
+	n, funcs := 0, 0
+	for _, rel := range modulePkgRels {
+		p := c.MustPkg(rel)
+		pk := "canvas"
+		if rel != "" {
+			pk = rel
+		}
+		for _, fd := range core.AllFuncDecls(p) {
+			if strings.HasSuffix(c.Fset.Position(fd.Pos()).Filename, "_test.go") || (fd.Name.Name == "init" && fd.Recv == nil) {
+				continue
+			}
+			funcs++
+			ord := 0
+			memoStores(p.TypesInfo, p.Types, fd, func(pos token.Pos, g string, missing []string) {
+				ord++
+				n++
+				key := fmt.Sprintf("%s.%s|store #%d into package-level cache %s", pk, core.FuncName(fd), ord, g)
+				if len(missing) == 0 {
+					r.OK("E7.memo-key", key, c.Pos(pos), "")
+				} else {
+					r.Fail("E7.memo-key", key, c.Pos(pos), fmt.Sprintf("the value stored in %s also depends on %s, which the key does not determine: whoever fills the entry first decides what every later caller with the same key gets, in this goroutine or another", g, strings.Join(missing, ", ")))
+				}
+			})
+		}
+	}
+	r.Count("E7.memo-key-functions", funcs)
+	r.Floor("E7.memo-key-functions", 500)
+	r.Floor("E7.memo-key-selftest", 3)
 }
